@@ -6,6 +6,7 @@ import (
 	"fmt"
 	"os"
 	"regexp"
+	"strconv"
 	"strings"
 )
 
@@ -492,7 +493,11 @@ func parseContractFile(path string, requirePrefix bool) (*ContractFile, error) {
 			if m == nil {
 				return nil, errf(rc, "bad anchor hook: %q", rc.rest)
 			}
-			curF.Hooks = append(curF.Hooks, &Hook{Kind: rc.kw, Target: m[1], Body: m[2], Props: props, File: path, Line: rc.line})
+			target := m[1]
+			if uq, err := strconv.Unquote(`"` + target + `"`); err == nil {
+				target = uq
+			}
+			curF.Hooks = append(curF.Hooks, &Hook{Kind: rc.kw, Target: target, Body: m[2], Props: props, File: path, Line: rc.line})
 			curL = nil
 		case "loop":
 			if curF == nil {
